@@ -84,7 +84,41 @@ def ret_err_sites(fn, R):
                 if rv["k"] == "aggregate" and rv.get("agg") == "adt" and rv["adt"].endswith("result::Result") and rv["variant_name"] == "Err":
                     e = strip_bb(R.op(rv["ops"][0]))
                     out.append((bi, err_variant(e), s))
+        # `opt.ok_or(E)?` / `res.map_err(..)?`-free form: the residual handed to from_residual carries E
+        t = b["term"]
+        if t["k"] == "call" and t["dest"]["local"] == 0 and not t["dest"]["proj"] and (t["callee"].get("def") or "").endswith("FromResidual::from_residual") and t["args"]:
+            c = find_call(strip_bb(R.op(t["args"][0])), ("Option::<T>::ok_or",))
+            if c is not None and len(c[3]) >= 2:
+                v = err_value_variant(strip_bb(c[3][1]))
+                if v is not None:
+                    out.append((bi, v, t))
     return out
+
+
+def find_call(e, suffixes, depth=0):
+    """first call expression in e whose callee ends with one of `suffixes`"""
+    if not isinstance(e, tuple) or depth > 12:
+        return None
+    if e and e[0] == "call" and isinstance(e[1], str) and e[1].endswith(tuple(suffixes)):
+        return e
+    for x in e:
+        if isinstance(x, tuple):
+            r = find_call(x, suffixes, depth + 1)
+            if r is not None:
+                return r
+    return None
+
+
+def err_value_variant(e):
+    """variant description of an error *value* that `?` converts into snow's Error (From impls of error.rs)"""
+    if e[0] == "agg" and e[1]:
+        enum = e[1].split("::")[-1]
+        wrap = {"StateProblem": "State", "InitStage": "Init", "Prerequisite": "Prereq", "PatternProblem": "Pattern"}.get(enum)
+        if wrap:
+            return (wrap, e[2])
+        if e[1].endswith("error::Error"):
+            return err_variant(e)
+    return None
 
 
 def result_err_compatible(fn, local, rty):
